@@ -59,19 +59,73 @@ def make_source(frames, n_nodes, edges=None):
     return make_labels(fl, n_nodes=n_nodes, edges=edges)
 
 
-def run_predictor(pred, provider, labels, batch_size, make_labels=False):
-    """Substitute the sio loaders, call the REAL make_pipeline and predict()."""
+def run_predictor(pred, provider, labels, batch_size, make_labels=False, stream_log=None, queue_maxsize=4):
+    """Substitute the sio loaders, call the REAL make_pipeline and predict().
+    stream_log: a harness.sched.Sched(forced=False); when given, the frame queue is a SchedQueue and frame reads of
+    video 0 are logged, so the same run also yields a FrameStream trace (reader/consumer events under the queue mutex)."""
     import sleap_nn.data.providers as prov
 
-    old = (prov.sio.load_slp, prov.sio.load_video)
+    old = (prov.sio.load_slp, prov.sio.load_video, prov.Queue)
     prov.sio.load_slp = lambda fn, **kw: labels
     prov.sio.load_video = lambda fn, **kw: labels.videos[0]
+    restore = []
+    if stream_log is not None:
+        from harness.sched import SchedQueue
+        SchedQueue.sched = stream_log
+        SchedQueue.created = []
+        prov.Queue = SchedQueue
+        for v in labels.videos:
+            be = v.backend
+
+            class _LogBackend:
+                """delegates to the array backend, logging every single-frame read (the reader thread's 'read' step)"""
+
+                def __init__(self, inner):
+                    self.__dict__["_inner"] = inner
+
+                def __getitem__(self, i):
+                    import threading
+                    # only the reader thread's reads are FrameStream steps (label construction re-reads images later)
+                    if not isinstance(i, (list, tuple, slice)) and isinstance(threading.current_thread(), (prov.LabelsReader, prov.VideoReader)):
+                        stream_log.log("read", int(i))
+                    return self._inner[i]
+
+                def __len__(self):
+                    return len(self._inner)
+
+                def __getattr__(self, k):
+                    return getattr(self._inner, k)
+
+            v.backend = _LogBackend(be)
+            restore.append((v, be))
     try:
-        pred.make_pipeline(provider, "mem://source", queue_maxsize=4)
+        pred.make_pipeline(provider, "mem://source", queue_maxsize=queue_maxsize)
     finally:
-        prov.sio.load_slp, prov.sio.load_video = old
+        prov.sio.load_slp, prov.sio.load_video, prov.Queue = old
     pred.pipeline.daemon = True
-    return pred.predict(make_labels=make_labels)
+    try:
+        if stream_log is not None:
+            real_join = pred.pipeline.join
+
+            def join_w(timeout=None):
+                real_join(timeout=120.0)
+                stream_log.log("join")
+
+            pred.pipeline.join = join_w
+            real_model = pred.inference_model
+            if real_model is not None:
+                def model_w(ex, _m=real_model):
+                    stream_log.log("infer", [int(x) for x in ex["frame_idx"]])
+                    return _m(ex)
+
+                pred.inference_model = model_w
+        out = pred.predict(make_labels=make_labels)
+        if stream_log is not None:
+            stream_log.log("end")
+        return out
+    finally:
+        for v, be in restore:
+            v.backend = be
 
 
 def build_single(cfg, frames, n_nodes):
